@@ -126,10 +126,12 @@ struct SimpleFont {
 }
 
 fn gen_simple_font(rng: &mut Rng, idx: u64) -> SimpleFont {
-    let fmt = match idx % 3 {
+    let fmt = match idx % 4 {
         0 => CmapFormat::Format12,
         1 => CmapFormat::Format4,
-        _ => CmapFormat::Both,
+        2 => CmapFormat::Both,
+        // several encoding records, the mapping in the most preferred one and decoys in the others
+        _ => CmapFormat::Records((1 + rng.below(255)) as u8),
     };
     let mut pool = plain_pool();
     pool.extend(alt_pool());
@@ -146,7 +148,7 @@ fn gen_simple_font(rng: &mut Rng, idx: u64) -> SimpleFont {
     if rng.chance(1, 4) {
         pool.push(0xFE00);
     }
-    if fmt == CmapFormat::Format4 {
+    if fmt.is_16bit() {
         pool.retain(|c| *c <= 0xFFFF);
     }
     let want = rng.range(20, 200) as usize;
@@ -208,7 +210,7 @@ fn gen_simple_font(rng: &mut Rng, idx: u64) -> SimpleFont {
     if rng.chance(2, 3) && n > 2 {
         for _ in 0..rng.range(1, 6) {
             let base = if rng.chance(5, 6) { *rng.pick(&chosen) } else { *rng.pick(&rest) };
-            if VS.contains(&base) || (fmt == CmapFormat::Format4 && base > 0xFFFF) {
+            if VS.contains(&base) || (fmt.is_16bit() && base > 0xFFFF) {
                 continue;
             }
             let vs = *rng.pick(VS);
@@ -233,7 +235,7 @@ fn gen_simple_font(rng: &mut Rng, idx: u64) -> SimpleFont {
         ..FontSpec::default()
     };
     let mut unmapped: Vec<u32> = rest.into_iter().filter(|c| !VS.contains(c)).collect();
-    if fmt == CmapFormat::Format4 {
+    if fmt.is_16bit() {
         unmapped.extend([0xF0000, 0xF0001]);
     }
     SimpleFont { spec, mapped: chosen.into_iter().filter(|c| !VS.contains(c)).collect(), unmapped }
